@@ -52,7 +52,7 @@ func getView(vc *gossipbackend.ViewCase) *bview {
 		bv.recs = lib.Records
 		recs := make([]gossipmodel.Rec, len(lib.Records))
 		for i, r := range lib.Records {
-			recs[i] = gossipmodel.Rec{Slot: r.Slot, IsBlock: r.IsBlock, BlockRoot: r.BlockRoot, ParentRoot: r.ParentRoot, State: r.Ref, Trunk: r.Branch == 0}
+			recs[i] = gossipmodel.Rec{Slot: r.Slot, IsBlock: r.IsBlock, BlockRoot: r.BlockRoot, ParentRoot: r.ParentRoot, State: r.Ref, Head: r.Head}
 		}
 		bv.ref = gossipmodel.NewView(bv.sp, recs)
 	}
